@@ -658,6 +658,9 @@ class CallMixin:
             if items is not None:
                 return _ConcreteIter(items)
             return App("iter", (a0,), fname="iter")
+        if name == "object" and not args and not kwargs:
+            # a fresh sentinel: equal / identical only to itself
+            return Obj("builtins.object", {}, name=f"object#{self.next_uid()}")
         if name == "next" and args:
             if isinstance(a0, _ConcreteIter):
                 if a0.pos < len(a0.items):
